@@ -452,6 +452,10 @@ def rand_builder_step(r, shape):
     if c == 22:
         return "-ck"
     if c == 23:
+        if r.chance(1, 3):
+            # a long value put into a field of `parts`, then emptied in place (the allocation stays)
+            f = r.pick(["ns", "ver", "sub"])
+            return "p%s:%s;t%s" % (f, hx(LONGV.replace(":", "_") if f != "ver" else LONGV), f)
         return r.pick(["pns:", "pname:", "pver:", "psub:"]) + v()
     if c < 27:
         return "pq:" + rand_quals_step(r, ".")
